@@ -355,6 +355,14 @@ def resolve_unwindset(h, ovl, tdir, logdir):
                 return [], "unwindset: no loop of %s in the GOTO program" % mf.group(1)
             out.append("%s:%s" % (min(cands)[1], mf.group(2)))
             continue
+        ma = re.match(r"(.+)@all:(\d+)$", pat)
+        if ma:
+            # every loop of the matching function(s)
+            hits = [lid for lid, line, func in loops3 if ma.group(1) in func or ma.group(1) in lid.rsplit(".", 1)[0]]
+            if not hits:
+                return [], "unwindset: no loop of %s in the GOTO program" % ma.group(1)
+            out += ["%s:%s" % (lid, ma.group(2)) for lid in hits]
+            continue
         m = re.match(r"(.+)\.(\d+):(\d+)$", pat)
         if not m:
             return [], "bad unwindset entry %r" % pat
